@@ -367,7 +367,7 @@ pub enum Stray {
     ValidateRight,
     ValidateWrongHash,
     Run,
-    Consts { from: u64 },
+    Consts { from: u64, nonempty: bool },
     Msg { from: u64, empty: bool },
 }
 
@@ -682,8 +682,14 @@ impl Driver {
                             Some(h) => h.run(RunRequest { computation_id: comp }).await.map_err(|e| format!("{e:?}")),
                             None => Err("NotFound".into()),
                         },
-                        Stray::Consts { from } => match w.existing(party as usize, &comp) {
-                            Some(h) => h.consts(ConstsRequest { from: *from as usize, computation_id: comp, consts: Default::default() }).await.map_err(|e| format!("{e:?}")),
+                        Stray::Consts { from, nonempty } => match w.existing(party as usize, &comp) {
+                            Some(h) => {
+                                let mut consts: polytune_server_core::Consts = Default::default();
+                                if *nonempty {
+                                    consts.insert("K".to_string(), Literal::NumUnsigned(1, polytune::garble_lang::token::UnsignedNumType::Usize));
+                                }
+                                h.consts(ConstsRequest { from: *from as usize, computation_id: comp, consts }).await.map_err(|e| format!("{e:?}"))
+                            }
                             None => Err("NotFound".into()),
                         },
                         Stray::Msg { from, empty } => match w.existing(party as usize, &comp) {
